@@ -365,6 +365,13 @@ pub fn new_env() -> Env {
     let env = Env::new_with_config(soroban_sdk::testutils::EnvTestConfig { capture_snapshot_at_drop: false });
     #[allow(deprecated)]
     env.budget().reset_unlimited();
+    // Persistent and instance entries (and contract code) outlive every history the harness plays, long sleeps included: on
+    // the network an archived persistent entry can be restored by anyone, so its lapse is not an observable change of contract
+    // state — whereas a TEMPORARY entry is gone for good once its lifetime ends, and temporary lifetimes are left as they are.
+    {
+        use soroban_sdk::testutils::Ledger as _;
+        env.ledger().with_mut(|li| li.min_persistent_entry_ttl = 6_000_000);
+    }
     env
 }
 
